@@ -27,8 +27,8 @@ func guardsOf(b *ssa.BasicBlock) []guard {
 			continue
 		}
 		t, f := d.Succs[0], d.Succs[1]
-		td := t == b || (t.Dominates(b) && len(t.Preds) == 1)
-		fd := f == b || (f.Dominates(b) && len(f.Preds) == 1)
+		td := len(t.Preds) == 1 && (t == b || t.Dominates(b))
+		fd := len(f.Preds) == 1 && (f == b || f.Dominates(b))
 		if td && !fd {
 			res = append(res, guard{ifi.Cond, true, d})
 		} else if fd && !td {
